@@ -58,3 +58,51 @@ Proof.
            (F13_neq F13_1 F13_0 eq_refl) eq_refl eq_refl eq_refl eq_refl
            F13_sqrt_ok F13_sqrt_zero F13_nonsquare_mul_2 F13_qr_sq_mul).
 Qed.
+
+(* ---------------------------------------------------------------- GF(7): a field with p = 3 (mod 4) *)
+(* There -1 = 6 is a non-square, so for Z = 6 the exceptional denominator 1 + Z u^2 of Elligator 2 vanishes at
+   u = 1 and u = 6: the branch `den_1 == 0` of the code (RFC 9380 6.7.1 step 2) is LIVE, unlike over GF(13).
+   Montgomery J = 3, K = 1 (J/K = 3, 1/K^2 = 1, a = 5, d = 1); x^2 + 3 x + 1 has no root in GF(7), so gx1 <> 0 for
+   every u and the coded map equals the RFC map everywhere. *)
+Definition F7_all : list F7 := [F7_0; F7_1; F7_2; F7_3; F7_4; F7_5; F7_6].
+Definition F7_sqrt (x : F7) : option F7 := find (fun r => F7_eqb (F7_mul r r) x) F7_all.
+Definition F7_is_qr (x : F7) : bool :=
+  negb (F7_eqb x F7_0) && match F7_sqrt x with Some _ => true | None => false end.
+Definition F7_parity (x : F7) : bool := Z.odd (F7_toZ x).
+
+Lemma F7_sqrt_ok : forall x, F7_is_qr x = true -> exists r, F7_sqrt x = Some r /\ F7_mul r r = x.
+Proof. intros x; destruct x; vm_compute; intros H; try discriminate; eexists; split; reflexivity. Qed.
+Lemma F7_sqrt_zero : F7_sqrt F7_0 = Some F7_0.
+Proof. reflexivity. Qed.
+Lemma F7_nonsquare_mul_6 : forall x, x <> F7_0 -> F7_is_qr x = false -> F7_is_qr (F7_mul F7_6 x) = true.
+Proof. intros x; destruct x; vm_compute; intros H1 H2; try reflexivity; try discriminate; exfalso; apply H1; reflexivity. Qed.
+Lemma F7_qr_sq_mul : forall c x, c <> F7_0 -> F7_is_qr (F7_mul (F7_mul c c) x) = F7_is_qr x.
+Proof. intros c x; destruct c; destruct x; vm_compute; intros H; try reflexivity; exfalso; apply H; reflexivity. Qed.
+Lemma F7_neq : forall a b, F7_eqb a b = false -> a <> b.
+Proof. intros a b H E. apply F7_eqb_spec in E. congruence. Qed.
+
+Definition F7_ell2 := ell2_coded F7_0 F7_1 F7_add F7_sub F7_mul F7_neg F7_inv F7_eqb F7_is_qr F7_sqrt F7_parity
+                                 F7_1 F7_3 F7_1 F7_6 F7_5 F7_1.
+Definition F7_ell2_rfc := ell2_rfc_mont F7_0 F7_1 F7_add F7_sub F7_mul F7_neg F7_inv F7_eqb F7_is_qr F7_sqrt F7_parity
+                                        F7_1 F7_3 F7_6.
+Definition F7_mont_to_te := mont_to_te F7_0 F7_1 F7_add F7_sub F7_mul F7_inv F7_eqb.
+
+Lemma F7_gx1_nonzero : forall u,
+  let x1 := ell2_rfc_x1 F7_0 F7_1 F7_add F7_mul F7_neg F7_inv F7_eqb F7_3 F7_6 u in
+  F7_add (F7_add (F7_mul (F7_mul x1 x1) x1) (F7_mul F7_3 (F7_mul x1 x1))) (F7_mul x1 F7_1) <> F7_0.
+Proof. intros u; destruct u; vm_compute; discriminate. Qed.
+
+Lemma F7_ell2_is_rfc : forall u, exists Q, F7_ell2_rfc u = Some Q /\ F7_ell2 u = MOk (F7_mont_to_te Q).
+Proof.
+  intros u.
+  exact (ell2_coded_equals_rfc F7_0 F7_1 F7_add F7_sub F7_mul F7_neg F7_inv F7_div F7_eqb
+           F7_field F7_eqb_spec F7_is_qr F7_sqrt F7_parity F7_1 F7_3 F7_3 F7_1 F7_6 F7_5 F7_1
+           (F7_neq F7_1 F7_0 eq_refl) eq_refl eq_refl eq_refl eq_refl
+           F7_sqrt_ok F7_sqrt_zero F7_nonsquare_mul_6 F7_qr_sq_mul u (F7_gx1_nonzero u)).
+Qed.
+(* the exceptional input u = 1 (1 + Z u^2 = 0): x1 = -(J/K) = 4, g(4) = 4 is a square, Montgomery point (4, 5) (sgn0 = 1),
+   twisted Edwards point (5, 2) *)
+Lemma F7_ell2_exceptional :
+  F7_add F7_1 (F7_mul F7_6 (F7_mul F7_1 F7_1)) = F7_0 /\
+  F7_ell2_rfc F7_1 = Some (F7_4, F7_5) /\ F7_ell2 F7_1 = MOk (F7_5, F7_2) /\ F7_ell2 F7_6 = MOk (F7_5, F7_2).
+Proof. vm_compute. repeat split; reflexivity. Qed.
